@@ -182,6 +182,27 @@ namespace cs
                            c.owners.push_back({[p]() mutable { p.reset(); }, 1, alloc});
                        });
         }
+        // the object is a copy of an lvalue: the copy constructor can fail although the move constructor is noexcept
+        template <class T, class Alloc>
+        void op_copy_of_lvalue(Ctx& c, Alloc& a, int alloc, long k, bool shared)
+        {
+            T proto; // (noexcept default constructor, not a counted construction; alive before and after)
+            if (shared)
+                guarded<T>(c, "allocate_shared<T>(copy of an lvalue)", alloc, 1, k,
+                           [&]
+                           {
+                               auto p = fm::allocate_shared<T>(a, proto);
+                               c.owners.push_back({[p]() mutable { p.reset(); }, 1, alloc});
+                           });
+            else
+                guarded<T>(c, "allocate_unique<T>(copy of an lvalue)", alloc, 1, k,
+                           [&]
+                           {
+                               auto p  = fm::allocate_unique<T>(a, proto);
+                               auto sp = std::make_shared<decltype(p)>(std::move(p));
+                               c.owners.push_back({[sp]() mutable { sp->reset(); }, 1, alloc});
+                           });
+        }
         template <std::size_t Pad, class Alloc>
         void op_base(Ctx& c, Alloc& a, int alloc, long k)
         {
@@ -375,7 +396,7 @@ namespace cs
                     // less travelled forms: a type whose default constructor is noexcept but whose value constructor
                     // can fail; the type-erased array overload; arrays of length 0
                     using TN  = InstN<4, 4>;
-                    long form = o.arg(0) % 8, n = o.arg(1) % 17, k = o.arg(2);
+                    long form = o.arg(0) % 10, n = o.arg(1) % 17, k = o.arg(2);
                     switch (form)
                     {
                     case 0:
@@ -398,6 +419,10 @@ namespace cs
                         break;
                     case 7:
                         op_unique<Inst<40, 64>>(c, env.la[0], 0, k % 3);
+                        break;
+                    case 8:
+                    case 9:
+                        op_copy_of_lvalue<TN>(c, env.la[0], 0, k % 3, form == 8);
                         break;
                     default:
                         op_array_any<Inst<100, 8>>(c, env.la[0], 4, 0, 0); // an array of no elements, type-erased
